@@ -16,6 +16,18 @@ CLAIMED = {
             'floats as reals; sin/cos/sqrt as uninterpreted functions with axiom instances; xarray isel/interp, file '
             'naming per date and the ISA pressure function (C12) by assumed contracts',
             'contract-based deductive verification: AST->z3 VCs of the real source, sidecar contracts', 'DESIGN 2 C16'),
+    'C20': ('proof',
+            'All interleavings of the atomic actions of two constructor calls (actions extracted from the real AST of '
+            'TrajectoryStore.__init__: every load/store of active_in_thread; a with-Lock block is indivisible) are decided by '
+            'z3 with symbolic thread ids and initial state (interference freedom), plus a sequential invariant '
+            '(first owner set => active_in_thread == first owner) preserved by every call with any outcome, which gives '
+            'every history of constructor calls by induction. A refuted interference obligation is a schedule and is '
+            'replayed on the real constructor with a sys.settrace line scheduler.',
+            'atomicity granularity (one attribute load/store = one action), threading.Lock mutual exclusion, get_ident '
+            'distinct per live thread; statements of __init__ that do not mention the shared attribute are abstracted '
+            'to "continue or raise"',
+            'contract-based deductive verification: atomic actions from the AST, interference-freedom + invariant VCs in z3',
+            'DESIGN 2 C20'),
 }
 REASONS_TODO = 'check not built yet (work in progress; see DESIGN.md section 2)'
 
